@@ -121,3 +121,26 @@ package remoting
 //@   ensures  m.backoff.currentAttempt == 0
 //@   ensures  tryerr == 1 ==> gcount(failedremote, 0) == old(gcount(failedremote, 0)) + 1
 //@   ensures  tryerr == 0 ==> gcount(failedremote, 0) == old(gcount(failedremote, 0))
+
+// ---------------------------------------------------------------------------------------------
+// C11: "all traffic to one address goes over one connection, in order" rests on ONE outbound mailbox per peer address.
+// GetOrCreate: the table is owned by the lock; an address that has a mailbox at the moment the lock is taken keeps
+// it and that mailbox is returned (nobody's mailbox is replaced); otherwise a new one is entered and returned; no
+// other address is touched. had/prev record the table at the LAST acquisition of the lock: a version that looks the
+// address up under one critical section and inserts under a later one does not satisfy this (other senders may have
+// inserted in between - the engine makes guarded data arbitrary at a re-acquisition).
+//@ guarded (*MailboxCentral).mailboxes by lock deep
+//@ func newMailbox
+//@   trusted
+//@   ensures result != nil && fresh(result)
+//@ func (*MailboxCentral).GetOrCreate
+//@   ghostvar had int
+//@   ghostvar prev any
+//@   callspec Lock sets had = (advertiseAddr in rmc.mailboxes ? 1 : 0), prev = iface(rmc.mailboxes[advertiseAddr])
+//@   callspec RLock sets had = (advertiseAddr in rmc.mailboxes ? 1 : 0), prev = iface(rmc.mailboxes[advertiseAddr])
+//@   requires rmc != nil && rmc.mailboxes != nil && !held(rmc.lock)
+//@   requires forall a string :: a in rmc.mailboxes ==> rmc.mailboxes[a] != nil
+//@   modifies rmc.mailboxes[*]
+//@   ensures  result != nil && !held(rmc.lock)
+//@   ensures  had == 1 ==> iface(result) == prev
+//@   ensures  advertiseAddr in rmc.mailboxes && rmc.mailboxes[advertiseAddr] == result
